@@ -155,6 +155,17 @@ func c09Stats(res *Result, c c09Case, lines []pkglint.VerifLine) (nontrivial boo
 					res.Count("mk.continuation_indent_dropped", 1)
 				}
 				prevHash = h
+				// a byte that unicode.IsSpace accepts but isHspace does not, next to the join
+				t := strings.TrimSuffix(r, "\n")
+				if k < len(l.Raws)-1 {
+					t = strings.TrimRight(strings.TrimSuffix(t, "\\"), " \t")
+					if c09EndsInOtherSpace(t) {
+						res.Count("mk.other_space_before_continuation", 1)
+					}
+				}
+				if k > 0 && c09StartsWithOtherSpace(strings.TrimLeft(t, " \t")) {
+					res.Count("mk.other_space_starts_continuation_line", 1)
+				}
 			}
 			if strings.HasSuffix(strings.TrimSuffix(l.Raws[0], "\n"), " \\") || strings.HasSuffix(strings.TrimSuffix(l.Raws[0], "\n"), "\t\\") {
 				res.Count("mk.outdent_dropped", 1)
@@ -179,6 +190,24 @@ func c09Stats(res *Result, c c09Case, lines []pkglint.VerifLine) (nontrivial boo
 		res.Count("mk.no_final_newline", 1)
 	}
 	return
+}
+
+func c09EndsInOtherSpace(t string) bool {
+	for _, sp := range []string{"\f", "\v", "\r", "\xc2\xa0", "\xc2\x85", "\xe2\x80\x80", "\xe3\x80\x80"} {
+		if strings.HasSuffix(t, sp) {
+			return true
+		}
+	}
+	return false
+}
+
+func c09StartsWithOtherSpace(t string) bool {
+	for _, sp := range []string{"\f", "\v", "\r", "\xc2\xa0", "\xc2\x85", "\xe2\x80\x80", "\xe3\x80\x80"} {
+		if strings.HasPrefix(t, sp) {
+			return true
+		}
+	}
+	return false
 }
 
 // c09Judge turns one oracle verdict into violations.
@@ -309,6 +338,16 @@ func c09RunGen(ctx *Ctx, res *Result, ncases int, get func(int) c09Case, kind st
 // over the alphabet, by index: strings ordered by length, then as base-7 numbers;
 // even index = makefile mode, odd = plain mode.
 func c09Exhaustive(maxLen int) (int, func(int) c09Case) {
+	return c09ExhaustiveOver(c09Alphabet, maxLen)
+}
+
+// c09Alphabet2 (round 4): what Unicode calls white space but make does not --
+// FF, VT, CR, NBSP (C2 A0), NEL (C2 85) -- next to the continuation bytes. Only
+// space and tab are blanks for the joining rule (isHspace).
+var c09Alphabet2 = []byte{'\\', '\n', ' ', '\f', '\v', '\r', 0xC2, 0xA0, 0x85, 'a'}
+
+func c09ExhaustiveOver(alphabet []byte, maxLen int) (int, func(int) c09Case) {
+	c09Alphabet := alphabet
 	k := len(c09Alphabet)
 	start := []int{0} // start[n] = index of the first string of length n
 	pow := 1
@@ -345,7 +384,8 @@ func c09RandomText(rng *Rng, maxLen int) string {
 			sb.WriteByte(Pick(rng, c09Alphabet))
 		}
 	case 1:
-		words := []string{"VAR=", "value", "#", "# comment", "a", "\\", "\\\\", "$$", "${X}", "\t", " ", "  ", "\r", ".if", "ab c"}
+		words := []string{"VAR=", "value", "#", "# comment", "a", "\\", "\\\\", "$$", "${X}", "\t", " ", "  ", "\r", ".if", "ab c",
+			"\f", "\v", "\xc2\xa0", "\xc2\x85", "\xe2\x80\x80", "\xe3\x80\x80"}
 		for sb.Len() < n {
 			k := rng.Intn(5)
 			for i := 0; i < k; i++ {
@@ -353,7 +393,8 @@ func c09RandomText(rng *Rng, maxLen int) string {
 			}
 			switch {
 			case rng.Chance(45):
-				sb.WriteString(Pick(rng, []string{"\\", " \\", "\t\\", "\\\\\\", " \t \\"}))
+				sb.WriteString(Pick(rng, []string{"\\", " \\", "\t\\", "\\\\\\", " \t \\",
+					"\f\\", "\v \\", "\xc2\xa0\\", " \r \\", "\xc2\x85\t\\", "\xe2\x80\x80\\"}))
 			case rng.Chance(10):
 				sb.WriteString("\\\\")
 			}
@@ -362,7 +403,8 @@ func c09RandomText(rng *Rng, maxLen int) string {
 			}
 			sb.WriteString("\n")
 			if rng.Chance(40) {
-				sb.WriteString(Pick(rng, []string{"\t", "  ", "\t#", " # ", "#", "\t\t"}))
+				sb.WriteString(Pick(rng, []string{"\t", "  ", "\t#", " # ", "#", "\t\t",
+					"\f", "\t\v", "\xc2\xa0", " \r", "\xc2\x85#", "\t\xe3\x80\x80"}))
 			}
 		}
 	default:
@@ -759,7 +801,7 @@ func c09WholeRun(ctx *Ctx, res *Result, root, path, old string) {
 // ---- entry points ----
 
 func runC09(ctx *Ctx) *Result {
-	res := &Result{Rule: "cases = (byte string, mode); exhaustive: every string of length <= L over {backslash, LF, CR, space, tab, #, a} in makefile and plain mode, then every string of <= 4 tokens over {BOM, U+00FC, NUL, FF, backslash, LF, a} loaded through Load(file, options), then seeded random strings (all through Load) up to 200 bytes (property alphabet / line-structured makefile text / arbitrary bytes incl. NUL and non-ASCII), with and without final newline; non-trivial = makefile mode: some logical line has >= 2 physical lines, or ends in an even backslash run, or a continuation meets EOF; plain mode: >= 2 lines or no final newline; distinct by (string, mode). Save scripts: random text <= 80 bytes with 0-3 Autofix operations on random lines. Whole runs: pkglint -F (real binary) on the fixture package with a generated Makefile; physical lines of logical lines not named in the AUTOFIX log must be reproduced in order, a run without AUTOFIX must leave the file alone."}
+	res := &Result{Rule: "cases = (byte string, mode); exhaustive: every string of length <= L over {backslash, LF, CR, space, tab, #, a} in makefile and plain mode, every string of length <= L2 over {backslash, LF, space, FF, VT, CR, 0xC2, 0xA0, 0x85, a} in both modes, then every string of <= 4 tokens over {BOM, U+00FC, NUL, FF, backslash, LF, a} loaded through Load(file, options), then seeded random strings (all through Load) up to 200 bytes (property alphabet / line-structured makefile text / arbitrary bytes incl. NUL and non-ASCII), with and without final newline; non-trivial = makefile mode: some logical line has >= 2 physical lines, or ends in an even backslash run, or a continuation meets EOF; plain mode: >= 2 lines or no final newline; distinct by (string, mode). Save scripts: random text <= 80 bytes with 0-3 Autofix operations on random lines. Whole runs: pkglint -F (real binary) on the fixture package with a generated Makefile; physical lines of logical lines not named in the AUTOFIX log must be reproduced in order, a run without AUTOFIX must leave the file alone. Named twice: pkglint -F with a *.mk fragment of the package given next to its package (or twice) against one fresh process per argument: same files afterwards, also after a second round."}
 	rng := NewRng(ctx.Seed)
 	maxLen, nrand, nsave, nwhole := 7, 30000, 5000, 80
 	if ctx.Tier == "thorough" {
@@ -771,6 +813,25 @@ func runC09(ctx *Ctx) *Result {
 	if res.Broken != "" {
 		return res
 	}
+	// round 4: second exhaustive alphabet (FF VT CR NBSP NEL next to the continuation bytes)
+	maxLen2 := 5
+	if ctx.Tier == "thorough" {
+		maxLen2 = 6
+	}
+	nexh2, getExh2 := c09ExhaustiveOver(c09Alphabet2, maxLen2)
+	onlyBase := func(s string) bool { return strings.Trim(s, string(c09Alphabet)) == "" }
+	// the strings that the first domain contains already are not counted again
+	var exh2 []c09Case
+	for i := 0; i < nexh2; i++ {
+		if c := getExh2(i); !(len(c.input) <= maxLen && onlyBase(c.input)) {
+			exh2 = append(exh2, c)
+		}
+	}
+	c09Run(ctx, res, exh2, "exhaustive2", nil)
+	if res.Broken != "" {
+		return res
+	}
+	res.Count("exhaustive2_max_len", maxLen2)
 	// second domain, through Load: BOM, other multi-byte sequences, NUL, FF at position 0 and at line starts
 	hostileTok := 4
 	if ctx.Tier == "thorough" {
@@ -816,6 +877,10 @@ func runC09(ctx *Ctx) *Result {
 		return res
 	}
 	c09WholeRuns(ctx, res, rng, nwhole)
+	if res.Broken != "" {
+		return res
+	}
+	c09NamedTwiceRuns(ctx, res, rng, nwhole/6+1)
 	res.Exhaustive = false
 	res.Count("exhaustive_max_len", maxLen)
 
@@ -827,10 +892,17 @@ func runC09(ctx *Ctx) *Result {
 		"plain.no_final_newline": 1000, "plain.crlf": 100,
 		"save.nothing_modified": 50, "save.partial": 200, "save.all_lines_modified": 20,
 		"w.noop_runs": 3, "w.partial_runs": 20, "w.untouched_multi_raw_lines": 20,
+		"mk.other_space_before_continuation": 1000, "mk.other_space_starts_continuation_line": 1000,
+		"w2.combined_runs": 10, "w2.runs_with_text_and_raw_detected_fixes": 3, "w2.second_check_saw_fixed_file": 5,
 	}
 	for _, k := range sortedKeys(floors) {
-		if n, _ := res.Distribution[k].(int); n < floors[k] && res.Broken == "" {
-			res.Broken = fmt.Sprintf("coverage floor missed: %s = %d < %d", k, n, floors[k])
+		if n, _ := res.Distribution[k].(int); n < floors[k] && res.Broken == "" && len(res.Violations) == 0 {
+			// the implementation keeps the generator from reaching a branch the property
+			// names: a broken correspondence, not a broken check
+			res.AddViolation(Violation{Key: "C09/coverage-floor/" + k,
+				What:       fmt.Sprintf("coverage floor missed: %s = %d < %d", k, n, floors[k]),
+				FoundInput: false, Size: 1,
+				Replay:     map[string]any{"kind": "floor", "broken": "the generated cases no longer reach " + k + " on this implementation"}})
 		}
 	}
 	res.Assumptions = []string{
@@ -857,6 +929,10 @@ func replayC09(ctx *Ctx, rep map[string]any) *Result {
 			return res
 		}
 		c09WholeRun(ctx, res, root, filepath.Join(root, "cat/pkg/Makefile"), unhx(mf))
+	case "namedtwice":
+		mod, _ := rep["module"].(string)
+		args, _ := rep["args"].(string)
+		c09NamedTwice(ctx, res, unhx(mod), strings.Fields(args))
 	case "save":
 		c := c09SaveCase{input: unhx(input), mk: mk}
 		if ops, ok := rep["ops"].([]any); ok {
